@@ -276,6 +276,12 @@ class Exec:
             raise PathEnd()
         return r
 
+    def _model_value(self, t):
+        self.stats['queries'] += 1
+        if self.solver.check() != z3.sat:
+            return None
+        return self.solver.model().eval(t, model_completion=True).as_long()
+
     def model_values(self, terms):
         """concrete values for named terms from a model of the current path condition (+extra)."""
         if self.solver.check() != z3.sat:
@@ -1376,7 +1382,14 @@ class Exec:
         if isinstance(k, BV):
             c = self.concretize(k.t)
             if c is None:
-                raise Unsupported('symbolic map key')
+                # small-domain key: fork over its feasible values (bounded)
+                for _ in range(8):
+                    v = self.memo(lambda: self._model_value(k.t))
+                    if v is None:
+                        raise PathEnd()
+                    if self.branch(k.t == v):
+                        return v
+                raise Unsupported('symbolic map key with more than 8 feasible values')
             return c
         if isinstance(k, VStr):
             cs = []
